@@ -230,6 +230,30 @@ Terminate(vr, sm, n, e) ==
 \* registry calls leave the miner alone
 OnVR(r, sm) == r @@ [SM |-> sm]
 
+\* a call record -> [ok, VR, SM, (results)]
+CDo(vr, sm, call, e) ==
+  CASE call.a = "Transfer" -> OnVR(Transfer(vr, call.c, call.to, call.amt, call.allocs, call.exts, e), sm)
+    [] call.a = "ExtendClaimTerms" -> OnVR(ExtendClaimTerms(vr, call.c, call.terms), sm)
+    [] call.a = "RemoveExpiredClaims" -> OnVR(RemoveExpiredClaims(vr, call.p, call.ids, e), sm)
+    [] call.a = "RemoveExpiredAllocs" -> OnVR(RemoveExpiredAllocs(vr, call.cl, call.ids, e), sm)
+    [] call.a = "CommitNI" -> CommitNI(vr, sm, call.n, call.exp, call.d, e)
+    [] call.a = "PreCommit" -> PreCommit(vr, sm, call.secs, e)
+    [] call.a = "ProveCommit" -> ProveCommit(vr, sm, call.secs, call.requireAll, e)
+    [] call.a = "ReplicaUpdate" -> ReplicaUpdate(vr, sm, call.ups, call.requireAll, e)
+    [] call.a = "Extend" -> Extend(vr, sm, call.decls, e)
+    [] call.a = "Terminate" -> Terminate(vr, sm, call.n, e)
+
+\* what can be observed of SM in the real state at epoch e
+AbsSM(sm, e) ==
+  [sec |-> [n \in InAmt(sm) |->
+              LET s == sm.sec[n] out == s.st = "term" \/ e > QExp(sm, s.d, s.exp) IN
+              [out |-> out, exp |-> s.exp, act |-> s.act, base |-> s.base, vs |-> s.vs, dw |-> s.dw, d |-> s.d,
+               proven |-> out \/ Proven(sm, n, e)]],
+   pre |-> [n \in {k \in Pre(sm) : e <= sm.sec[k].at + PCWindow} |-> <<sm.sec[n].exp, sm.sec[n].at>>],
+   alloc |-> sm.alloc,
+   qa |-> PowQA(sm, e),
+   raw |-> SectorSize * Cardinality({n \in InAmt(sm) : Active(sm, n, e)})]
+
 -----------------------------------------------------------------------------
 (* Layer P: C10, from the English statement.  All formulas take the states explicitly: (vr, sm, e)       *)
 (* before and (vr2, sm2) after the step recorded in l.                                                *)
